@@ -79,6 +79,7 @@ package sonic
 //@   ensures [armed] invoked(cb) == 0 ==> f.slot.Handlers[0] == f.readReactor.onRead &&
 //@           readSoFar <= f.readReactor.readSoFar && f.readReactor.readSoFar <= len(b) &&
 //@           f.readReactor.b == b && f.readReactor.readAll == readAll
+//@   ensures [C02,C19 work-left] invoked(cb) == 0 && old(readSoFar) < len(b) ==> f.readReactor.readSoFar < len(b)
 //@   ensures [depth] f.ioc.Dispatched == old(f.ioc.Dispatched)
 
 //@ func fnparam:(*fileReadReactor).onRead.cb
@@ -144,6 +145,9 @@ package sonic
 //@   ensures [armed] invoked(cb) == 0 ==> f.slot.Handlers[1] == f.writeReactor.onWrite &&
 //@           wroteSoFar <= f.writeReactor.wroteSoFar && f.writeReactor.wroteSoFar <= len(b) &&
 //@           f.writeReactor.b == b && f.writeReactor.writeAll == writeAll
+//@   // a continuation is armed only while bytes remain: a WriteAll that has moved everything is
+//@   // reported done now, not after waiting for writability to write nothing (which reads as EOF)
+//@   ensures [C02,C19 work-left] invoked(cb) == 0 && old(wroteSoFar) < len(b) ==> f.writeReactor.wroteSoFar < len(b)
 //@   ensures [depth] f.ioc.Dispatched == old(f.ioc.Dispatched)
 
 
